@@ -12,7 +12,9 @@ Go's partial operations are explicit `.panic` results:
 * `popToken` past the end of an empty token slice (`tokens[len(tokens)-1]` with `len = 0`);
 * `NewReference(idents)` with no idents (`idents[0]`).
 Loops whose continuation is the state returned by a callee take `fuel` (`.panic "fuel"` when
-exhausted); `ParserProofs` shows `len(tokens)+1` is always enough.
+exhausted); `ParserProofs` shows the fuel given by `walkFragments` (`2·len(tokens)+2` for the
+value recursion — each array level uses two calls —, `len(tokens)+1` for the fragment loop) is always
+enough.
 -/
 namespace J5V.Bcl
 
@@ -426,9 +428,9 @@ def walkStatement (fuel : Nat) : WM Fragment := do
       let w3 ← getW
       pure (.header ⟨ref, tags, quals, some desc, false, ⟨start, w3.currentPos, none⟩⟩)
     | .comment =>
-      -- `hdr.End` is never assigned on this path: it stays the zero Position
+      -- `hdr.End = ww.currentPos()` (fix 11ea558), then the trailing comment
       let comment ← endStatement
-      pure (.header ⟨ref, tags, quals, none, false, ⟨start, ⟨0, 0⟩, comment⟩⟩)
+      pure (.header ⟨ref, tags, quals, none, false, ⟨start, w2.currentPos, comment⟩⟩)
     | .eol | .eof =>
       pure (.header ⟨ref, tags, quals, none, false, ⟨start, w2.currentPos, none⟩⟩)
     | _ => failUnexpected [.lbrace, .eol, .description, .ident]
@@ -492,7 +494,7 @@ def walkFragmentsLoop (failFast : Bool) (pfuel : Nat) :
           | .ok _ w2 => walkFragmentsLoop failFast pfuel fuel w2 frags errs'
 
 def walkFragments (failFast : Bool) (tokens : List Token) : WalkOut :=
-  walkFragmentsLoop failFast (tokens.length + 1) (tokens.length + 1) ⟨none, tokens⟩ [] []
+  walkFragmentsLoop failFast (2 * tokens.length + 2) (tokens.length + 1) ⟨none, tokens⟩ [] []
 
 /-! ## fragmentsToFile
 
